@@ -7,8 +7,8 @@
     kind-tagged tokens (seal, count, key, fitness).  The bytes of each token are C11's subject
     (`formats_agree`, the byte-level tie); here a token is what one `<<` / `>>` / `hash_t::save` /
     `fitness_t::load` … transfers.  A read that finds the input exhausted, or a token of another kind,
-    fails (the stream goes bad): `load` returns `false` at that point and leaves the cache as it was
-    (before the fix of session 4 the slots written so far stayed in place: `loadTOld`);
+    fails (the stream goes bad): `load` returns `false` at that point, with the slots written so far
+    left in place — exactly as the code does;
   * the statement language `IStmt` into which tools/translate_cache.py translates the two bodies
     (pure statements are those of Lang.lean), and its semantics, written once.
 
@@ -17,7 +17,6 @@
   this model (C10/C12 cover hostile input).
 -/
 import Vita.C04.Lang
-import Vita.C04.Lemmas
 namespace Vita.C04.IO
 open Vita.C04 Vita.C04.Lang
 
@@ -40,32 +39,15 @@ def toksOf (s : Saved) : List Tok := .u32 s.sl :: .size (UInt64.ofNat s.n) :: en
 /-- cache::save at token level -/
 def saveT (c : Cache) : List Tok := toksOf c.save
 
-/-- the reading loop of cache::load on tokens: `n` entries, each a key token then a fitness token;
-    anything else is a failed read (`none`) -/
-def readEntries : Nat → List Tok → Option (List (Key × Fit))
-  | 0, _ => some []
-  | n + 1, .key k :: .fit v :: inp => (readEntries n inp).map ((k, v) :: ·)
-  | _ + 1, _ => none
-
-/-- cache::load at token level (after `fix: cache::load stores nothing unless the whole stream was
-    read`): a failed read leaves the cache exactly as it was; a complete read stores the entries, in
-    stream order, under the seal read, and installs that seal -/
-def loadT (c : Cache) : List Tok → Bool × Cache
-  | .u32 sl :: .size n :: inp =>
-    match readEntries n.toNat inp with
-    | some es => (true, { c with table := loadAll c.idx sl es c.table, sl := sl })
-    | none => (false, c)
-  | _ => (false, c)
-
-/-- the loop of cache::load as it was BEFORE that fix: every entry was stored at once, so a failed read
-    left the slots written so far in place — under the seal of the file -/
+/-- the loop of cache::load on tokens: `n` entries, each a key token then a fitness token; anything
+    else is a failed read, which leaves the slots written so far in place -/
 def loadGoT (idx : Key → Nat) (sl : UInt32) : Nat → List Tok → (Nat → Slot) → Bool × (Nat → Slot)
   | 0, _, t => (true, t)
   | n + 1, .key k :: .fit v :: inp, t => loadGoT idx sl n inp (setSlot t (idx k) ⟨k, v, sl⟩)
   | _ + 1, _, t => (false, t)
 
-/-- cache::load at token level before the fix -/
-def loadTOld (c : Cache) : List Tok → Bool × Cache
+/-- cache::load at token level -/
+def loadT (c : Cache) : List Tok → Bool × Cache
   | .u32 sl :: .size n :: inp =>
     match loadGoT c.idx sl n.toNat inp c.table with
     | (true, t) => (true, { c with table := t, sl := sl })
@@ -90,9 +72,6 @@ inductive IStmt where
   | incr (x : Nat)                                      -- `++x;`, x a std::size_t local
   | forCount (n : Nat) (body : IStmt)                   -- `for (T i(0); i < n; ++i) body` (body does not mention i)
   | forSlots (x : Nat) (body : IStmt)                   -- `for (const auto &x : table_) body`, in slot order
-  | declVec (x : Nat)                                   -- `std::vector<slot> x;`
-  | pushBack (x : Nat) (e : Expr)                       -- `x.push_back(e);`
-  | forVec (y x : Nat) (body : Stmt)                    -- `for (const auto &y : x) body`, body without I/O
   | retGood                                             -- `return out.good();` (the stream is good: C12 has the rest)
 deriving Repr
 
@@ -121,15 +100,6 @@ def overSlots (f : IOSt → IOut) (x : Nat) : List Nat → IOSt → IOut
   | j :: js, s =>
     match f { s with env := s.env.set x (.slot (s.st.table j)) } with
     | .run s' => overSlots f x js s'
-    | r => r
-
-/-- a round per element of a local vector, with `y` bound to the element; what the body does to the
-    other locals is dropped (the translator lets it write the table only) -/
-def overVec (f : CState → Env → Out) (y : Nat) : List Slot → CState → Env → Out
-  | [], st, env => .run st env
-  | e :: es, st, env =>
-    match f st (env.set y (.slot e)) with
-    | .run st' _ => overVec f y es st' env
     | r => r
 
 def liftOut (s : IOSt) : Out → IOut
@@ -202,15 +172,6 @@ def iexec (cs : Callees) (dom : List Nat) : IStmt → IOSt → IOut
     | _ => .bad
   | .forSlots x body, s => overSlots (fun s' => iexec cs dom body s') x dom s
   | .retGood, s => .ret s (.bool true)
-  | .declVec x, s => .run { s with env := s.env.set x (.slots []) }
-  | .pushBack x e, s =>
-    match s.env x, eval cs s.st s.env e with
-    | .slots l, .slot sl => .run { s with env := s.env.set x (.slots (l ++ [sl])) }
-    | _, _ => .bad
-  | .forVec y x body, s =>
-    match s.env x with
-    | .slots l => liftOut s (overVec (exec cs body) y l s.st s.env)
-    | _ => .bad
 
 /-- `bool save(std::ostream &out) const`: (result, state afterwards, tokens written) -/
 def runSave (cs : Callees) (dom : List Nat) (body : IStmt) (st : CState) : Option (Bool × CState × List Tok) :=
